@@ -141,7 +141,7 @@ theorem from_password_rc4 {P : Prims} {H : Hashes} (hp : PrimsAgree P H) (hw : H
   rw [if_neg (by omega), if_pos (by omega)]
   unfold fromPasswordRc4
   simp only [show 8 * n / 8 = n by omega]
-  rw [if_neg (by omega)]
+  rw [if_neg (by omega), if_neg (by omega)]
   simp only [keyDerivUser_eq hp d.r n hn.2, Out.bind_ok, Nat.min_eq_left hn.2,
     checkPasswordRc4_eq hp hw d.r d.u id _ (hvalid _), keyDerivOwner_eq hp hw d.r n hn.2]
   unfold authenticate
